@@ -230,7 +230,8 @@ CHECKS = {
         design="DESIGN.md §3 C02",
         note=SCHED_NOTE + " The clause 'released on the first tick at or after onset + duration x gate, never in the onset tick' is "
              "proved as an invariant (Timely) of the per-track tick function, which by C07.non_interference is how a track evolves "
-             "when tracks do not call the timeline API; with callbacks it is checked by the correspondence.",
+             "when tracks do not call the timeline API, and is lifted to every tick of a multi-track run by all_tracks_timely / "
+             "every_release_on_time (through C07.run_is_merge); with callbacks it is checked by the correspondence.",
         technique="Lean 4 invariant proof (induction over operation histories) + differential correspondence with the real Timeline"),
 }
 
